@@ -6,13 +6,17 @@ import random
 from funprogs import DECLS, HELPERS
 
 EXTRA_DECLS = "codata U { app(u: U): i64 }\n"
+EXT_DECLS = ("codata Guard { check(err: cns i64, x: i64, ok: cns i64): i64 }\n"
+             "codata Guard2 { test(x: i64, ok: cns i64, lim: i64, err: cns i64): i64, peek: i64 }\n")
 NAMES = ['x', 'y', 'v', 'x0', 'a0', 'p']
 TYS = {'I': 'i64', 'L': 'List[i64]', 'P': 'Pair[i64, i64]', 'E': 'Enum3', 'F': 'Fun[i64, i64]', 'S': 'Stream[i64]', 'U': 'U', 'O': 'Obj3'}
 CODATA = {'F', 'S', 'U', 'O'}
 
 
 class G:
-    def __init__(self, seed, mode, unique=False):
+    def __init__(self, seed, mode, unique=False, ext=False):
+        self.ext = ext            # extended grammar (only generated with distinct binders): destructors with two covariable
+                                  # parameters, labels nested in tail position, a scrutinee used again inside its own clause
         self.r = random.Random(seed)
         self.mode = mode
         self.defs = []
@@ -51,6 +55,8 @@ class G:
         choices = ['var'] * 2 + ['leaf', 'if', 'let', 'let']
         if ty == 'I':
             choices += ['op', 'op', 'call', 'caseL', 'caseP', 'caseE', 'apply', 'head', 'obj', 'selfapp', 'label', 'fundef']
+            if self.ext:
+                choices += ['guard', 'guard', 'nestlabel', 'rescrut', 'rescrut']
             if eff:
                 choices += ['print', 'print', 'exit']
                 if self.vars_of(env, 'I', covar=True):
@@ -149,6 +155,36 @@ class G:
             return f"({u}.app({self.gen('U', env, d - 1, pure)}))"
         if c == 'fundef':
             return self.fundef_call(env, d, pure)
+        if c == 'guard':
+            e_, x_, o_, l_ = self.name(), self.name(), self.name(), self.name()
+            f_, d_ = self.name(), self.name()
+            if r.random() < 0.5:
+                benv = env + [(e_, 'I', 'cns'), (x_, 'I', 'prd'), (o_, 'I', 'cns')]
+                body = self.gen('I', benv, d - 1, True)
+                obj = f"new {{ check({e_}, {x_}, {o_}) => {body} }}"
+                call = f"{obj}.check({f_}, {self.gen('I', env, d - 1, pure)}, {d_})"
+            else:
+                benv = env + [(x_, 'I', 'prd'), (o_, 'I', 'cns'), (l_, 'I', 'prd'), (e_, 'I', 'cns')]
+                body = self.gen('I', benv, d - 1, True)
+                obj = f"new {{ peek => {self.gen('I', env, d - 1, eff)}, test({x_}, {o_}, {l_}, {e_}) => {body} }}"
+                call = f"{obj}.test({self.gen('I', env, d - 1, pure)}, {d_}, {self.gen('I', env, d - 1, pure)}, {f_})"
+            return f"(label {f_} {{ (label {d_} {{ 0 - ({call}) }}) + 1000 }})"
+        if c == 'nestlabel':
+            k1, k2, k3 = self.name(), self.name(), self.name()
+            inner_env = env + [(k1, 'I', 'cns'), (k2, 'I', 'cns'), (k3, 'I', 'cns')]
+            inner = f"(label {k3} {{ {self.gen('I', inner_env, d - 1, True)} }})"
+            ctx = r.choice(["{t}", "({o} + {t})", "id({t})", "(goto {k1} ({t}))"])
+            mid = ctx.format(t=inner, o=self.gen('I', env, 0, False), k1=k1)
+            return f"(label {k1} {{ label {k2} {{ {mid} }} }})"
+        if c == 'rescrut':
+            # a list-typed binder of a pair pattern is matched on first thing in the clause and used again inside its own clause
+            l1, l2, y, ys = self.name(), self.name(), self.name(), self.name()
+            scr, other = (l1, l2) if r.random() < 0.5 else (l2, l1)
+            e2 = env + [(l1, 'L', 'prd'), (l2, 'L', 'prd'), (y, 'I', 'prd'), (ys, 'L', 'prd')]
+            use_other = f" + sum({other})" if r.random() < 0.5 else ""
+            cons = f"Cons({y}, {ys}) => (({y} + sum({scr})) + {self.gen('I', e2, d - 1, eff)}){use_other}"
+            pair = f"Tup2({self.gen('L', env, d - 1, pure)}, {self.gen('L', env, d - 1, pure)})"
+            return f"({pair}.case {{ Tup2({l1}, {l2}) => {scr}.case[i64] {{ Nil => {self.gen('I', env, 0, False)}, {cons} }} }})"
         if c == 'print':
             pr = r.choice(['print_i64', 'println_i64'])
             return f"({pr}({self.gen('I', env, d - 1, pure)}); {self.gen('I', env, d - 1, eff)})"
@@ -254,6 +290,19 @@ def program(seed, mode='all', depth=3):
         body = g.gen('I', env, depth, True)
         out.append(DECLS + EXTRA_DECLS + HELPERS + ''.join(g.defs) + f"\ndef main(a: i64, b: i64): i64 {{ {body} }}\n")
     return {'name': f"rand/{mode}/{depth}/{seed}", 'src': out[0], 'twin': out[1]}
+
+
+def program_ext(seed, mode='all', depth=3):
+    """extended grammar, distinct binders only (no twin: the open capture finding cannot show on these)"""
+    g = G(seed, mode, True, ext=True)
+    body = g.gen('I', [('a', 'I', 'prd'), ('b', 'I', 'prd')], depth, True)
+    src = (DECLS + EXTRA_DECLS + EXT_DECLS + "data PairLL { Tup2(fst: List[i64], snd: List[i64]) }\n" + HELPERS + ''.join(g.defs)
+           + f"\ndef main(a: i64, b: i64): i64 {{ {body} }}\n")
+    return {'name': f"randx/{mode}/{depth}/{seed}", 'src': src}
+
+
+def programs_ext(mode, seeds, depth=3):
+    return [program_ext(s, mode, depth) for s in seeds]
 
 
 def programs(mode, seeds, depth=3):
